@@ -23,6 +23,8 @@
 (***************************************************************************)
 EXTENDS Numbers
 
+CONSTANT NonTailIf   \* BOOLEAN, FALSE in the specification proper.  TRUE gives a deliberately broken machine
+                     \* that keeps a frame while the selected arm of an if runs (sensitivity check of C02)
 CONSTANT GC    \* BOOLEAN: collect unreachable frames at calls and reuse the smallest free id
                \* (makes non-terminating tail loops finite-state, C02)
 
@@ -51,7 +53,7 @@ PrimNames == {
   "caar", "cadr", "cdar", "cddr", "caaar", "caadr", "cadar", "caddr", "cdaar", "cdadr", "cddar", "cdddr",
   "apply", "map", "for-each", "fold-left", "fold-right",
   "vector", "make-vector", "vector-length", "vector-ref", "vector-set!",
-  "tick!", "display", "newline"}
+  "tick!", "probe!", "display", "newline"}
 
 \* <<number of required arguments, accepts more>>
 PrimArity(n) ==
@@ -60,7 +62,7 @@ PrimArity(n) ==
     [] n = "apply" -> <<1, TRUE>>
     [] n = "newline" -> <<0, FALSE>>
     [] n \in {"eq?", "eqv?", "equal?", "cons", "floor-quotient", "floor-remainder", "make-list", "list-tail",
-              "list-ref", "memq", "memv", "map", "for-each", "make-vector", "vector-ref"} -> <<2, FALSE>>
+              "list-ref", "memq", "memv", "map", "for-each", "make-vector", "vector-ref", "probe!"} -> <<2, FALSE>>
     [] n \in {"fold-left", "fold-right", "vector-set!"} -> <<3, FALSE>>
     [] OTHER -> <<1, FALSE>>
 
@@ -105,8 +107,8 @@ CloseFrames(frames, S) ==
       inner == UNION {UNION {FramesOfValue(frames[f].vars[x]) : x \in DOMAIN frames[f].vars} : f \in S}
       new == (more \cup inner) \ S
   IN IF new = {} THEN S ELSE CloseFrames(frames, S \cup new)
-Collect(s) == LET live == CloseFrames(s.frames, RootFrames(s))
-              IN [s EXCEPT !.frames = [f \in live |-> s.frames[f]]]
+Collect(s, extra) == LET live == CloseFrames(s.frames, RootFrames(s) \cup extra)
+                     IN [s EXCEPT !.frames = [f \in live |-> s.frames[f]]]
 FreshFrame(frames) ==
   IF GC THEN CHOOSE n \in 1..(Cardinality(DOMAIN frames) + 1) :
                n \notin DOMAIN frames /\ \A m \in 1..(n - 1) : m \in DOMAIN frames
@@ -157,7 +159,7 @@ StartBody(s, defs, body, env, k) ==
                  !.kont = Push([k |-> "bodydef", x |-> defs[1].x, defs |-> Tail(defs), body |-> body, env |-> env], k)]
 
 NewFrame(s, parent, vars) ==
-  LET s0 == IF GC THEN Collect(s) ELSE s
+  LET s0 == IF GC THEN Collect(s, {parent}) ELSE s      \* the new frame's parent is live by definition
       fid == FreshFrame(s0.frames)
   IN [st |-> [s0 EXCEPT !.frames = (fid :> [parent |-> parent, vars |-> vars]) @@ @], fid |-> fid]
 
@@ -366,6 +368,9 @@ ApplyPrim(s, n, a, k) ==
                                v |-> a[2]], k)
          [] n = "tick!" -> [s EXCEPT !.out = Append(@, Show(a[1], s.vecs)),
                                      !.ctrl = Ret(IF Len(a) >= 2 THEN a[2] ELSE a[1]), !.kont = k]
+         \* (probe! site iter): observation point; records the depth of the continuation (the R7RS space measure)
+         [] n = "probe!" -> [s EXCEPT !.out = Append(@, [t |-> "probe", site |-> a[1], iter |-> a[2], depth |-> Len(k)]),
+                                      !.ctrl = Ret(a[2]), !.kont = k]
          [] n = "display" -> [s EXCEPT !.out = Append(@, [t |-> "display", v |-> Show(a[1], s.vecs)]),
                                        !.ctrl = Ret(Unspec), !.kont = k]
          [] n = "newline" -> [s EXCEPT !.out = Append(@, [t |-> "newline"]), !.ctrl = Ret(Unspec), !.kont = k]
@@ -418,9 +423,11 @@ ReturnStep(s) ==
             ELSE [s EXCEPT !.ctrl = Ev(fr.todo[1], fr.env),
                            !.kont = Push([fr EXCEPT !.todo = Tail(@), !.done = done], k)]
        [] fr.k = "if" ->
-            IF Truthy(v) THEN [s EXCEPT !.ctrl = Ev(fr.a, fr.env), !.kont = k]
+            LET k2 == IF NonTailIf THEN Push([k |-> "id"], k) ELSE k IN
+            IF Truthy(v) THEN [s EXCEPT !.ctrl = Ev(fr.a, fr.env), !.kont = k2]
             ELSE IF fr.b = <<>> THEN [s EXCEPT !.ctrl = Ret(Unspec), !.kont = k]
-            ELSE [s EXCEPT !.ctrl = Ev(fr.b[1], fr.env), !.kont = k]
+            ELSE [s EXCEPT !.ctrl = Ev(fr.b[1], fr.env), !.kont = k2]
+       [] fr.k = "id" -> [s EXCEPT !.kont = k]
        [] fr.k = "seq" -> StartSeq(s, fr.rest, fr.env, k)
        [] fr.k = "bodydef" ->      \* internal definition: bound in the call's own frame, visible to the whole body
             LET s1 == [s EXCEPT !.frames[fr.env].vars = Bind(@, fr.x, v)]
